@@ -4,6 +4,8 @@ import HmfVerif.Gen.ExprFlow
 import HmfVerif.Spec.Transfer
 import HmfVerif.Proofs.ExprLemmas
 import Mathlib.Analysis.Convex.SpecificFunctions.Basic
+import HmfVerif.Gen.Guards
+import HmfVerif.Spec.Guards
 /-!
 # C10 — transfer functions are pointwise in k, reach 1 on large scales, never exceed 1
 -/
@@ -267,5 +269,8 @@ theorem EH_NoBAO_large_scale (hq : evalR opq ρ (ehQ Gen.Transfer.EH_NoBAO_lnt) 
   simp only [mul_zero, add_zero] at hL ⊢
   rw [div_self hL.ne', Real.log_one]
 end EHNoBAO
+
+/-- the only threshold in the table-driven models is the documented low-k flatness test; no new special case -/
+theorem guards_transfer_models : Gen.Guards.transferModels = Spec.Guards.transferModels := by decide
 
 end Hmf.C10
